@@ -184,6 +184,18 @@ Theorem yield_advances_by_delta : forall (s : clockstate) (p : pend) (d : num) (
     (forall now', ok now' -> toQ (py_beats s2 now') <= toQ (p_beats q) -> toQ now' <= toQ (p_secs q)).
 Proof. exact yield_advances. Qed.
 
+(* Several TempoClocks in one process (the model the multi-clock sessions are replayed against): a change on clock
+   number c re-times exactly the pending tasks of clock c; a task of any other clock keeps its due beat AND the second
+   it is filed under, so (play_quant_wakes_on_grid_any_tempo / yield_advances_by_delta on ITS clock, whose state did
+   not change) it still wakes where its own clock reads its due beat. *)
+Theorem other_clocks_pending_untouched : forall (c : nat) (s : clockstate) (l : list entry) (id : N),
+  find_pend id (retime_on c s l) =
+  match find_pend id l with
+  | Some (k, p) => Some (if Nat.eqb k c then (c, retime s p) else (k, p))
+  | None => None
+  end.
+Proof. exact retime_on_find. Qed.
+
 (* --- histories, with the logical time of each change as data -------------------------------
    integrate folds the changes over the ideal piecewise-affine clock (T, B, V) = "beat B at second T,
    V beats per second since":  tempo/etempo at time t keep the beat of t and change V;  beats = v at t
@@ -313,6 +325,18 @@ Example ex_yield :
   = Some ((1, 17, 4), (1, 45, 32))%Z.
 Proof. vm_compute. reflexivity. Qed.
 
+(* two clocks: ex_clock (number 0) gets tempo 8 while task 7 of clock 1 (ex_backwards) is pending: task 7 is where it was,
+   task 3 of clock 0 moved *)
+Example ex_two_clocks :
+  let l := [(3%N, (0%nat, sched_abs_nrt ex_clock (F (9 # 4)))); (7%N, (1%nat, sched_abs_nrt ex_backwards (F (-1 # 2))))] in
+  match step ex_clock (OTempo (F (17 # 16)) (I 8)) with
+  | Some s' => (option_map (fun kp => canon (p_secs (snd kp))) (find_pend 7%N (retime_on 0 s' l)),
+                option_map (fun kp => canon (p_secs (snd kp))) (find_pend 3%N (retime_on 0 s' l)),
+                option_map (fun kp => canon (p_secs (snd kp))) (find_pend 3%N l))
+  | None => (None, None, None)
+  end = (Some (1, 7, 8), Some (1, 69, 64), Some (1, 9, 8))%Z.
+Proof. vm_compute. reflexivity. Qed.
+
 Print Assumptions beats_secs_inverse.
 Print Assumptions TInv_all_histories.
 Print Assumptions grid_minimal.
@@ -323,3 +347,4 @@ Print Assumptions constructor_reference_point.
 Print Assumptions play_quant_wakes_on_grid_any_tempo.
 Print Assumptions pending_tasks_keep_beat_order.
 Print Assumptions yield_advances_by_delta.
+Print Assumptions other_clocks_pending_untouched.
